@@ -455,6 +455,13 @@ class IMAPClientCommand:
         #
         self.completed = False
 
+        # If the mailbox's management task can not let this command run (its
+        # message set is not valid for the mailbox) it records the exception
+        # here before setting `ready`, and `ready_and_okay()` raises it in the
+        # task that is waiting to run the command.
+        #
+        self.error: Exception | None = None
+
     ##################################################################
     #
     @asynccontextmanager
@@ -466,6 +473,8 @@ class IMAPClientCommand:
         try:
             mbox.task_queue.put_nowait(self)
             await self.ready.wait()
+            if self.error is not None:
+                raise self.error
             if mbox.deleted:
                 from .mbox import NoSuchMailbox
 
